@@ -166,6 +166,8 @@ def replay_batch(chk, hists, stats, label, keep):
             mm = dict(clause=v['verdict'], step=vstep, got='(recorded event)', want='(one of the outcomes the specification allows)',
                       before=None, op=v['verdict'].split(':')[0], features=[])
             tr['mismatch'] = mm
+        elif mm is not None and mm['clause'].startswith('returned-table:'):
+            pass     # aliasing between the data set and a table it handed back: seen by the replay only (the recorded events are values)
         elif (v['verdict'] == 'ok') != (mm is None) or (mm is not None and (v['verdict'] != mm['clause'] or vstep != mm['step'])):
             raise MachineryError('replay and trace validation disagree on one history: '
                                  f'replay {mm and (mm["clause"], mm["step"])}, trace {v}; history {describe(h)} on {h["init"]}')
